@@ -72,6 +72,7 @@ type Worker struct {
 	inv       *Inventory
 	K         int
 	stop      bool
+	violLog   *os.File
 }
 
 func (w *Worker) addNontrivial(h uint64) {
@@ -96,6 +97,14 @@ func (w *Worker) report(v *Violation) {
 	v.Count = 1
 	w.seenClass[k] = v
 	w.St.Violations = append(w.St.Violations, v)
+	// stream it out at once: a later crash of this worker (the code under test may exhaust
+	// memory once its state is corrupted) must not lose what was already found
+	if w.violLog != nil && v.Replay != nil {
+		if b, err := json.Marshal(v); err == nil {
+			w.violLog.Write(append(b, '\n'))
+			w.violLog.Sync()
+		}
+	}
 }
 
 func (w *Worker) classSeen(prop, op, clause string) bool {
